@@ -282,15 +282,21 @@ impl Calendar {
             // An ordinal month is a position in the year: in a year with a leap month the
             // codes of the leap month and of those after it carry a smaller number.
             (Some(ordinal), None) => self
-                .month_code_for_ordinal(era, year, ordinal)
+                .month_code_for_ordinal(era, year, ordinal, resolved_fields.day)
                 .unwrap_or(resolved_fields.month_code),
             // Both given: they must name the same month of that year.
             (Some(ordinal), Some(code)) => {
-                let first = self
+                // NOTE: The first month of an era need not have a first day (Heisei 1 starts on
+                // January 8): fall back to the day asked for.
+                let probe = self
                     .0
                     .date_from_codes(era, year, IcuMonthCode(code.0), 1)
+                    .or_else(|_| {
+                        self.0
+                            .date_from_codes(era, year, IcuMonthCode(code.0), resolved_fields.day)
+                    })
                     .map_err(TemporalError::from_icu4x)?;
-                if self.0.month(&first).ordinal != ordinal {
+                if self.0.month(&probe).ordinal != ordinal {
                     return Err(TemporalError::range()
                         .with_message("Month and monthCode values could not be resolved."));
                 }
@@ -307,6 +313,7 @@ impl Calendar {
         era: Option<IcuEra>,
         year: i32,
         ordinal: u8,
+        day: u8,
     ) -> Option<MonthCode> {
         let number = |n: u8, leap: bool| {
             let bytes = [
@@ -325,8 +332,10 @@ impl Calendar {
         .into_iter()
         .flatten()
         .find(|code| {
+            // NOTE: The first month of an era need not have a first day: fall back to `day`.
             self.0
                 .date_from_codes(era, year, IcuMonthCode(*code), 1)
+                .or_else(|_| self.0.date_from_codes(era, year, IcuMonthCode(*code), day))
                 .is_ok_and(|date| self.0.month(&date).ordinal == ordinal)
         })
         .map(MonthCode)
